@@ -661,7 +661,7 @@ _fna_cache = {}
 
 
 def fna_of(world, fn):
-    k = (id(world), fn.id)
+    k = (world.uid, fn.id)
     r = _fna_cache.get(k)
     if r is None:
         r = FnA(world, fn)
